@@ -84,9 +84,10 @@ def r2_bounded_reader(ctx):
     # the over-limit outcome flags overflow before leaving the loop
     for S in sorted(f.live):
         si = f.switch_info(S) if f.blocks[S]["t"]["k"] == "switch" else None
-        if si and si["kind"] == "bin" and si["op"] == "Gt" and "saturating_add" in sh(ne(f.deep(si["a"]))):
+        if si and si["kind"] == "bin" and si["op"] in ("Gt", "Le") and "saturating_add" in sh(ne(f.deep(si["a"]))):
             for lab, tgt in f.succ[S]:
-                if lab != 0:
+                # the over-limit outcome: `sum > max` true, or `sum <= max` false
+                if (lab != 0) == (si["op"] == "Gt"):
                     r = f.reach([0], removed_nodes=[c.block for c in cas], removed_edges=[(S, 0)])
                     # from the true edge, every path to the return passes compare_exchange
                     r2 = f.reach([tgt], removed_nodes=[c.block for c in cas] + [S])
@@ -104,6 +105,12 @@ def r2_bounded_reader(ctx):
                 a, b = sh(ne(f.deep(si["a"]))), sh(ne(f.deep(si["b"])))
                 if ("read(" in a and b == "0") or ("read(" in b and a == "0"):
                     eof_edges += [(S, lab) for lab, _ in f.succ[S] if (lab != 0) == (si["op"] == "Eq")]
+            elif si["kind"] in ("place", "other"):
+                # the same test as a match on the count: `match reader.read(..)? { 0 => break, n => n }`
+                d = f.blocks[S]["t"]["d"]
+                pl = (d.get("copy") or d.get("move")) if isinstance(d, dict) else None
+                if pl is not None and "usize" in f.locals[pl["l"]]["ty"] and "read(" in sh(ne(f.deep(d))) and "saturating_add" not in sh(ne(f.deep(d))):
+                    eof_edges += [(S, lab) for lab, _ in f.succ[S] if lab == 0]
     err_blocks = [c.block for c in f.calls() if "from_residual" in (c.callee or "")]
     r = f.reach([0], removed_nodes=[c.block for c in cas] + err_blocks, removed_edges=eof_edges)
     if not eof_edges:
@@ -139,6 +146,11 @@ def r2_bounded_reader(ctx):
         for c in clo.calls():
             if (c.callee or "").startswith(PC + "read_captured_stream"):
                 code = c.args[2].get("int")
+                if code is None:
+                    # the tag taken from the table itself: stream_code(ProcessStream::X) evaluates to the table's entry for X
+                    e = clo.deep(c.args[2])
+                    if isinstance(e, tuple) and e[0] == "call" and str(e[1]).endswith("stream_code") and len(e[2]) == 1 and isinstance(e[2][0], tuple) and e[2][0][0] == "agg" and not e[2][0][3]:
+                        code = (tab.get(e[2][0][2]) or ["?"])[0].replace("_u8", "")
                 ty = " ".join(c.gargs)
                 want = "Stdout" if "ChildStdout" in ty else "Stderr"
                 tv = tab.get(want, ["?"])[0].replace("_u8", "")
@@ -160,7 +172,13 @@ def r3_kill(ctx):
                 kinds = [d[1] for (bi, k, d) in origins(f, rv["ops"][0], 4) if k == "agg"]
                 kind = kinds[0] if kinds else "?"
                 n += 1
-                if any(f.dominates(t.block, b) and t.block != b for t in term):
+                # the error of try_wait itself (the OS does not know the child any more): nothing left to terminate - the same
+                # outcome whether it is propagated with `?` or matched and returned by hand
+                from ..panics import label_names
+                wait_failed = any(f.switch_info(S)["kind"] == "discr" and "try_wait(" in sh(ne(f.deep(f.blocks[S]["t"]["d"]))) and label_names(f, S, al, f.switch_info(S)) == {"Err"} for S, al in f.constraints(b))
+                if wait_failed:
+                    ctx.ok("kill-before-err|%s|wait-failed" % kind, f.where(b), "Err(%s) carries the failure of try_wait itself" % kind)
+                elif any(f.dominates(t.block, b) and t.block != b for t in term):
                     ctx.ok("kill-before-err|%s" % kind, f.where(b), "terminate_child dominates Err(%s)" % kind)
                 else:
                     ctx.bad("kill-before-err|%s" % kind, f.where(b), "wait_for_child returns Err(%s) without terminating the child: it is left running" % kind)
@@ -238,8 +256,14 @@ def r4_utf8_and_status(ctx):
     else:
         ctx.bad("utf8|strict", f.where(), "captured bytes are not validated with String::from_utf8 (lossy or unchecked conversion): invalid UTF-8 would not be an error")
     clo = ctx.lib.fns.get(PC + "join_capture::{closure#0}")
+    # the same mapping written as a match on the conversion's result: InvalidUtf8 built on its Err outcome
+    from ..panics import label_names
+    by_match = [b for b in sorted(f.live) for st in f.blocks[b]["s"] if st["rv"]["k"] == "agg" and st["rv"].get("variant") == "InvalidUtf8"
+                and any(f.switch_info(S)["kind"] == "discr" and "from_utf8(" in sh(ne(f.deep(f.blocks[S]["t"]["d"]))) and label_names(f, S, al, f.switch_info(S)) == {"Err"} for S, al in f.constraints(b))]
     if clo is not None and "InvalidUtf8" in json.dumps(clo.m["blocks"]):
         ctx.ok("utf8|error-kind", clo.where(), "maps to ProcessError::InvalidUtf8(stream)")
+    elif by_match:
+        ctx.ok("utf8|error-kind", f.where(by_match[0]), "the Err outcome of String::from_utf8 builds ProcessError::InvalidUtf8(stream)")
     else:
         ctx.bad("utf8|error-kind", f.where(), "invalid UTF-8 is no longer mapped to ProcessError::InvalidUtf8")
     # `the corresponding error`: the stream an overflow / invalid-UTF-8 error names is the stream it happened on
